@@ -721,15 +721,28 @@ class _Run(object):
                 # the oneway request must have been served (its thread parked) before a body that waits for it may start:
                 # requests of different connections are not ordered, and the multiplex server has only one thread
                 ev = HELD_EVT.get(ow)
-                if ev is not None and not ev.wait(HANG):
+                if ev is not None and not self._parked_or_served(ow, ev):
                     raise HarnessError("C12: oneway request was not served")
             with LOCK:
                 RELEASE_IN[tok] = list(self.pending_into)
             self.pending_into = []
 
+    def _parked_or_served(self, tok, ev):
+        """the oneway request has been taken up: its thread is parked - or, when no thread of its own shows up within 2 s (a daemon may
+        well run it on a thread it has already, e.g. one the harness is holding back), every parked thread is started (a legal
+        schedule) and the call's body must then run"""
+        if ev.wait(2.0):
+            return True
+        with LOCK:
+            parked = list(HELD)
+        for t in parked:
+            _start_held(t)
+        e2 = EVENTS.get(tok)
+        return ev.wait(0.01) or (e2 is not None and e2.wait(HANG))
+
     def release(self, tok):
         ev = HELD_EVT.get(tok)
-        if ev is not None and not ev.wait(HANG):
+        if ev is not None and not self._parked_or_served(tok, ev):
             raise HarnessError("C12: oneway request was not served")      # (inconclusive, never a verdict)
         _start_held(tok)
 
